@@ -110,6 +110,13 @@ JOBS = [
     Job('GeodesicLine.GenPosition', 'GeodesicLine::GenPosition', ['C12', 'C01', 'C13', 'C14'], const_classes=['<Geodesic'], timeout=600,
         replace=['Math::sincosd', 'Math::atan2d', ('Math::AngNormalize', dict(ghost=False)), 'Geodesic::SinCosSeries', 'GeodesicLineExact::GenPosition'],
         inline=['GeodesicLine::Init'], sat='cadical', description='position on a geodesic line (series): output-mask frame, NaN rule, ranges'),
+    # ---- polygon area (C08)
+    Job('PolygonArea.transitdirect', 'PolygonAreaT::transitdirect', ['C08', 'C14'], timeout=300, description='crossing parity for unrolled (direct) edges'),
+    Job('PolygonArea.transit', 'PolygonAreaT::transit', ['C08', 'C13', 'C14'], timeout=600, sat='cadical',
+        inline=[('Math::AngDiff', dict(arity=2, cname='Math_AngDiff2')), ('Math::AngDiff', dict(arity=3, select=r'T& ?e')), 'Math::sum', 'Math::AngNormalize'],
+        description='prime-meridian crossing of the shortest edge (inverse edges)'),
+    Job('PolygonArea.AreaReduce', 'PolygonAreaT::AreaReduce', ['C08', 'C14'], timeout=300, inline=[('PolygonAreaT::Remainder', dict(select=r'real'))],
+        description='reduction of the accumulated area modulo the ellipsoid area; sign / reverse conventions'),
 ]
 
 
@@ -129,11 +136,22 @@ NOT_BUILT = 'in reach of the technique (DESIGN.md section 5) but its contracts a
 NOT_APPLICABLE = {
     'C02': NUMERIC, 'C03': NUMERIC, 'C06': NUMERIC, 'C11': NUMERIC, 'C15': NUMERIC,
     'C17': NUMERIC + '; NearestNeighbor is a C++ template over user types that neither the C extraction nor the CBMC C++ front end can take',
- 'C07': NOT_BUILT, 'C08': NOT_BUILT, 'C09': NOT_BUILT,
+ 'C07': NOT_BUILT,  'C09': NOT_BUILT,
       'C19': NOT_BUILT, 'C20': NOT_BUILT,
 }
 
 PROPS = {
+    'C08': dict(
+        level='proof',
+        level_text='The discrete mechanisms of the polygon classes: the crossing-parity function for direct edges equals the parity of floor(lon2/360) - floor(lon1/360) '
+                   'for all longitudes; the crossing function for inverse edges counts the prime-meridian crossing of the shorter way round; the final area reduction lands in '
+                   'the documented interval for every accumulated value, crossing count and option; all discharged by cbmc.',
+        level_note='Trusted: as C18 (exact remainder model for 360 and 720). That S12 sums to the area, invariance under vertex rotation / longitude shifts, additivity, and the '
+                   'AddPoint/TestPoint state machine over the Accumulator are not decided.',
+        design_ref='DESIGN.md section 5, C08',
+        not_decided=['perimeter and area are those of the polygon (numeric: sums of inverse/direct solutions)', 'TestPoint/TestEdge equal AddPoint/AddEdge + Compute (state machine over Accumulator: not extracted)',
+                     'invariances (first vertex, longitude shifts, cutting along a diagonal)'],
+    ),
     'C01': dict(
         level='other',
         level_text='Only two discrete clauses of this (numeric) property are decided, by proof: returned azimuths, latitudes and (without unrolling) longitudes of '
